@@ -446,6 +446,27 @@ func (rs *RelationService) createTable(r *Relation, tableName string) error {
 		return ErrTableAlreadyExist
 	}
 
+	// refuse the statement before anything is changed if the catalog can't
+	// hold one of the column definitions
+	for _, fd := range r.Fields {
+		tuple := Tuple{
+			Relation: &schemaTableSchema,
+			Vals: map[string]interface{}{
+				"table_name":   tableName,
+				"field_name":   fd.Name,
+				"field_type":   int64(fd.DataType),
+				"field_length": fd.Len,
+			},
+		}
+		buf, err := tuple.Encode()
+		if err != nil {
+			return err
+		}
+		if err := checkRowSizeLimit(buf.Bytes()); err != nil {
+			return err
+		}
+	}
+
 	pg, err := rs.createPage()
 	if err != nil {
 		return err
